@@ -28,7 +28,7 @@ Result: `accepts_iff_grammar_entry_partial` (and `accepts_iff_grammar_decimal_pa
 hypothesis) — the statement of `accepts_iff_grammar`, verbatim, for `f32`/`f64`, under the
 explicit side conditions listed there; `accepts_iff_grammar_of_numberExact` reduces the whole proved class to the single
 open statement `NumberExactC12 : Prop`. `accepts_iff_grammar` itself stays a `def`: it is FALSE on the finding classes
-(`accepts_iff_grammar_refuted_by_prefix`).
+(`regression_accepts_prefix_zero`: the former refutation by the base-prefix finding is repaired).
 -/
 namespace LexVerif.Props.C12
 open LexVerif LexVerif.Model LexVerif.Spec LexVerif.Proof.Grammar LexVerif.Proof.Sep
@@ -337,23 +337,17 @@ theorem render_num_not_err (ty : Fmt) (r b : Nat) (l : FloatLit) (n : Nat) :
   rw [this] at h
   simp at h
 
-/-- **Why `accepts_iff_grammar` stays a `def`**: as stated (no exclusion of base-prefix formats) it is refuted by the
-open finding `finding_prefix_zero` — format `prefix_d_radix10` (valid, `radix+format`), default options, input `0`:
-the entry point prints `err EmptyMantissa 1`, the documented grammar derives the number `0`. -/
-theorem accepts_iff_grammar_refuted_by_prefix : ¬ accepts_iff_grammar := by
-  intro h
-  have hm : parseFloatSyntax ⟨featsRF, cfgPrefixD.fmt, false⟩ {} false [48] true = .error (.err "EmptyMantissa" 1) := by
-    decide
-  have hg : grammarFloatComplete featsRF cfgPrefixD.fmt {} [48] = .num ⟨false, [0], [], 0⟩ 1 := by decide
-  have := h featsRF cfgPrefixD.fmt {} f64 [48] (by decide) (by decide) (by decide) (by decide) (by decide) (by decide)
-  rw [entry_guards_pass featsRF cfgPrefixD.fmt {} false f64 [48] (by decide) (by decide) (by decide) (by decide),
-    hm, hg] at this
-  rcases this with h1 | ⟨h1, _⟩
-  · have h2 := renderErr_startsWith "EmptyMantissa" 1
-    simp only [] at h1
-    rw [h1, render_num_not_err] at h2
-    cases h2
-  · cases h1
+/-- **regression (former refutation `accepts_iff_grammar_refuted_by_prefix`)**: format `prefix_d_radix10` (valid,
+`radix+format`, a base prefix merely allowed), default options, input `0`. Before the repair of `parse_number`
+(`fixes/C12-base-prefix-swallows-leading-zero.diff`, `Model.prefixRepair`) the syntax layer returned
+`Err(EmptyMantissa(1))` while the documented grammar derives the number `0`, which refuted `accepts_iff_grammar`.
+Now the syntax layer accepts and the grammar derives `0`.
+`accepts_iff_grammar` nevertheless stays a `def`: as stated (no exclusion) it is still contradicted at the syntax level
+by the open finding C12-no-digits-accepted-as-zero (`C12.finding_empty_input`). -/
+theorem regression_accepts_prefix_zero :
+    (match parseFloatSyntax ⟨featsRF, cfgPrefixD.fmt, false⟩ {} false [48] true with
+     | .ok _ => true | .error _ => false) = true ∧
+    grammarFloatComplete featsRF cfgPrefixD.fmt {} [48] = .num ⟨false, [0], [], 0⟩ 1 := by decide
 
 /-- non-vacuity of `accepts_iff_grammar_entry_partial`, all hypotheses at once (STANDARD, default options and feature
 set, `1.5e3`, `f64`; the `Number` is `15·10²`, untruncated, and `NumberExactAt` holds for it by evaluation) -/
